@@ -16,8 +16,16 @@ cleanup() { rm -f "$BIN"; }
 trap cleanup EXIT
 (
   cd "$HERE/sim" || exit 2
-  if ! cmp -s "$REPO/go.sum" go.sum; then cp "$REPO/go.sum" go.sum; fi
-  go build -tags verif -o "$BIN" ./cmd/grolsim
+  if [ "$REPO" = /repo ]; then
+    if ! cmp -s "$REPO/go.sum" go.sum; then cp "$REPO/go.sum" go.sum; fi
+    go build -tags verif -o "$BIN" ./cmd/grolsim
+  else
+    # another checkout of grol (e.g. the snapshot of a background run): same module, alternate go.mod
+    MF="$HERE/.build/gomod.$$"; mkdir -p "$MF"
+    sed "s#=> /repo#=> $REPO#" go.mod > "$MF/go.mod"; cp "$REPO/go.sum" "$MF/go.sum"
+    go build -modfile="$MF/go.mod" -tags verif -o "$BIN" ./cmd/grolsim; r=$?
+    rm -rf "$MF"; exit $r
+  fi
 ) >"$HERE/.build/build.$$.log" 2>&1
 rc=$?
 if [ $rc -ne 0 ] || [ ! -x "$BIN" ]; then
